@@ -439,7 +439,7 @@ func (x *Evaluator) evalU(v ssa.Value, e *env, c *evalCtx) Val {
 			}
 		}
 		if o, ok := base.(OpaqueV); ok {
-			return x.symbolic(v.Type(), o.Origin+"."+fname)
+			return x.symbolic(v.Type(), o.Origin+"."+x.accessorNameOf(v.X.Type(), v.Field, fname))
 		}
 		return x.symbolic(v.Type(), "struct."+fname)
 	case *ssa.Lookup:
@@ -1255,7 +1255,7 @@ func (x *Evaluator) evalFieldRead(a *ssa.FieldAddr, t types.Type, e *env, c *eva
 						return fv
 					}
 				case OpaqueV:
-					return x.symbolic(t, b.Origin+"."+name)
+					return x.symbolic(t, b.Origin+"."+x.accessorNameOf(a.X.Type(), a.Field, name))
 				}
 			}
 		}
@@ -2085,4 +2085,40 @@ func (x *Evaluator) mapLoop(v *ssa.Phi, e *env, c *evalCtx) (Val, bool) {
 		rest = at(src.Elem)
 	}
 	return ListV{Prefix: outs, Elem: rest, Origin: "appended"}, true
+}
+
+// accessorNameOf: a field of a node handed in from outside, read directly by code of the
+// node's own package, is named like the accessor method that returns it ("Name()" for name):
+// both spell the same child.
+func (x *Evaluator) accessorNameOf(t types.Type, field int, fname string) string {
+	if p, ok := t.Underlying().(*types.Pointer); ok {
+		t = p.Elem()
+	}
+	named, ok := t.(*types.Named)
+	if !ok {
+		return fname
+	}
+	for i := 0; i < named.NumMethods(); i++ {
+		fn := x.W.Prog.FuncValue(named.Method(i))
+		if fn == nil || !isAccessor(fn) || len(fn.Blocks) != 1 {
+			continue
+		}
+		ret, ok := fn.Blocks[0].Instrs[len(fn.Blocks[0].Instrs)-1].(*ssa.Return)
+		if !ok || len(ret.Results) != 1 || fn.Synthetic != "" {
+			continue
+		}
+		switch f := ret.Results[0].(type) {
+		case *ssa.Field:
+			if f.Field == field && types.Identical(f.X.Type(), named) {
+				return fn.Name() + "()"
+			}
+		case *ssa.UnOp:
+			if fa, ok := f.X.(*ssa.FieldAddr); ok && fa.Field == field {
+				if pt, ok := fa.X.Type().Underlying().(*types.Pointer); ok && types.Identical(pt.Elem(), named) {
+					return fn.Name() + "()"
+				}
+			}
+		}
+	}
+	return fname
 }
